@@ -30,7 +30,10 @@ LEVEL_TEXT = ('Lean 4 theorems, for all input fields/offsets, samplings, tilt sh
               '(call_mask_matching), the call ends in ValueError iff the mask differs from the output array in EITHER dimension (call_mask_refused_iff), so an '
               'accepted mask has the output shape (accepted_mask_has_output_shape; former_mask_witness_refused: the 8x10 / 10x8 masks of the fixed finding are refused) — the '
               'defaults, the broadcasting, the guard, the threshold and both out_extent calls are regenerated from propagate_dft. For a common shift the sum over fields is '
-              'the Fraunhofer sum of Wavefront.field of the input (propagateDft_common_shift; propagateDft_common_real_shift with the split derived by np.fix: window centred at trunc(shift), value at g − shift).')
+              'the Fraunhofer sum of Wavefront.field of the input (propagateDft_common_shift; propagateDft_common_real_shift with the split derived by np.fix: window centred at trunc(shift), value at g − shift). '
+              'The call on a wavefront of any plane type (propagateDftTyped: _propagate_ptype as regenerated in Gen.codePropagate, placed by the regenerated statement positions '
+              'Gen.dftPtypeStmt / Gen.dftMaskGuardStmt): pupil -> image and image -> pupil run the SAME propagateDftCall with the plane type flipped (both_directions_same_call), '
+              'a wavefront without plane type is refused with TypeError before the mask guard, whatever the mask (untyped_refused_before_mask_guard).')
 LEVEL_NOTE = ('Partial: trunc on floats enters as the class operation TruncLike.trunc (Float truncation in the driver, floor/ceil by sign at R); '
               'the two are tied by the differential check of every split and by a probe of 8 adversarial doubles per case (integers +-1 ulp, halves, '
               '+-0.0, subnormals, up to 2**52) compared exactly with np.fix. oversample also scales the shift, which is C04\'s Field.shift. '
@@ -43,13 +46,14 @@ RULE = ('cases: pupils 1..6 x 1..6 (even/odd/non-square, off-centre support, 1..
         'random masks (rectangles with holes, single pixels; 1 in 12 all-zero, 1 in 6 of a wrong shape in one or both dimensions), optional Tilt planes (sub-pixel to beyond the output), and the '
         'image->pupil direction (second propagation of a propagated wavefront); distinct = (direction, pupil shape, offsets, os, '
         'shape, prop_shape, mask box, tilt class); non-trivial = window clipped / mask / tilt / per-axis sampling / offset field'
-        ' Extremes stream (5% of quick, 240 cases in search/thorough): every length scaled by 1e-9..1e3, per-axis pixel scales differing by a relative 1e-5..5e-3 only, large (64..100) critically sampled pupils with an odd dimension (oracle only).')
+        ' Extremes stream (5% of quick, 240 cases in search/thorough): every length scaled by 1e-9..1e3, per-axis pixel scales differing by a relative 1e-5..5e-3 only, large (64..100) critically sampled pupils with an odd dimension (oracle only). Untyped stream (8 quick / 60 search / 120 thorough): wavefront through a plain Plane (plane type none), every second with a mask of the wrong shape. Every result is READ four times (Wavefront.field, Wavefront.intensity, field again, intensity again: field.insert and field.reduce -> _disjoint -> _merge); the oracle requires every read to equal the Fraunhofer reference (|.|^2 for intensity).')
 TRUSTED = ['Field.shift (the real-valued shift of a field, in output samples) as proved in C04; lentil.boundary = C20 model boundary∘gtMask (boundary_is_bbox)',
            'np.dot(E1.dot(f), E2), np.exp, np.outer, np.fix, np.broadcast_to as modelled in Model/Fourier.lean and Model/Propagate.lean',
            'lentil.fourier.dft2 = Model dft2 (checked by C01); lentil.field.insert = Model insertArr (checked by C06)']
 UNPROVEN = ['np.fix on IEEE doubles = TruncLike.trunc: class operation, tied differentially (splits of every case + adversarial probe)',
             'np.broadcast_to(x, (2,)) for an int or a pair: NumPy contract (ShapeArg.bcast2)']
-ASSUMPTIONS = ['oversample is an integer >= 1 (the docstring says float; a non-integer oversample gives float shapes and fails downstream: not supported by propagate_dft, not generated)',
+ASSUMPTIONS = ['untyped wavefronts (plane type none: only plain lentil.Plane met) are generated with and without masks, masks of the wrong shape included: TypeError expected (oracle), model = propagateDftTyped; they carry no tilt (focal length is inf there)',
+               'oversample is an integer >= 1 (the docstring says float; a non-integer oversample gives float shapes and fails downstream: not supported by propagate_dft, not generated)',
                'shape >= 1, prop_shape >= 1; the wavefront has passed through a plane (wavefront.shape is a pair)',
                'a mask whose shape differs from shape*oversample in one or both dimensions must be refused with ValueError (oracle; corpus case mask-8x10-for-8x8-output)',
                'a mask without support must be refused: ValueError or NumPy\'s IndexError are both accepted as the refusal',
@@ -207,6 +211,22 @@ def _case(rng, tier, k, scale=1.0, near_equal=False):
             c['stages'].append(st1)
     return c
 
+def _untyped(rng, tier, k):
+    """a wavefront that met only a plain lentil.Plane (plane type none) handed to propagate_dft: one stage, no tilt; every second case with a
+    mask of the wrong shape (both dimensions) — the plane-type check must come first (TypeError, not ValueError)"""
+    while True:
+        c = _case(rng, tier, 0)
+        if len(c['stages']) == 1 and not c.get('fit_tilt'): break
+    st = c['stages'][0]
+    st['tilt_px'] = []; st['tilt'] = []
+    c['untyped'] = True
+    if k % 2:
+        sh = _sh2(st, c['pupil']['shape']); S = [sh[0] * st['os'], sh[1] * st['os']]
+        S2 = [S[0] + int(rng.integers(1, 4)), S[1] + int(rng.integers(1, 4))]
+        mk = np.zeros(S2, dtype=int); mk[:S[0], :S[1]] = 1
+        st['mask'] = {'shape': S2, 'bits': [int(x) for x in mk.ravel()], 'dtype': 'int', 'bad': 'both'}
+    return c
+
 def _critical(rng, lo=64, hi=100):
     """large pupil filling its array, at least one ODD dimension, critically sampled (alpha = 1/n per axis), output = input
     shape, no tilt/mask: the regime where a DFT could be swapped for an FFT — the optical axis must stay at floor(n/2).
@@ -236,6 +256,7 @@ def generate(rng, tier):
     n = {'quick': 240, 'thorough': 3000, 'search': 300}[tier]
     out = [_case(rng, tier, k) for k in range(n)]
     out += _extremes(rng, tier, {'quick': 12, 'thorough': 240, 'search': 240}[tier])
+    out += [_untyped(rng, tier, k) for k in range({'quick': 8, 'thorough': 120, 'search': 60}[tier])]
     # IEEE tie of the model's truncation (TruncLike.trunc at Float) with np.fix: adversarial doubles per case
     for c in out:
         if not c.get('nomodel'): c['fix_probe'] = _fix_probe(rng)
@@ -273,6 +294,9 @@ def _build(c):
         mask = np.array([(seg == k).astype(int) for k in range(1, seg.max() + 1)])
     dx = c['dx'][0] if c['scalar_dx'] else tuple(c['dx'])
     wl, z = _wz(c)
+    if c.get('untyped'):
+        # a plain Plane: the wavefront keeps plane type none (it has met no pupil / image plane)
+        return lentil.Wavefront(wavelength=wl) * lentil.Plane(amplitude=amp, opd=opd, mask=mask, pixelscale=dx)
     pupil = lentil.Pupil(amplitude=amp, opd=opd, mask=mask, pixelscale=dx, focal_length=z)
     if c.get('fit_tilt'): pupil = pupil.fit_tilt()
     w = lentil.Wavefront(wavelength=wl) * pupil
@@ -360,10 +384,18 @@ def impl(c):
         else:
             observed = False
             fx = np.fix(f['shift']); f['fix'] = [int(fx[0]), int(fx[1])]; f['sub'] = [f['shift'][a] - f['fix'][a] for a in (0, 1)]
-    return {'in': inp, 'observed_split': observed,
+    # the propagated wavefront is read as a caller does: Wavefront.field, Wavefront.intensity, and both AGAIN (a view must not change the
+    # wavefront: Wavefront.intensity goes through field.reduce -> _disjoint -> _merge, Wavefront.field through field.insert)
+    try:
+        f1 = o.field; i1 = o.intensity; f2 = o.field; i2 = o.intensity
+    except Exception as e:
+        return {'in': inp, 'exc': type(e).__name__, 'msg': 'reading Wavefront.field / Wavefront.intensity of the result: ' + str(e)[:160]}
+    reads = {'int1': [float(x) for x in np.asarray(i1, dtype=float).ravel()], 'int2': [float(x) for x in np.asarray(i2, dtype=float).ravel()],
+             'int_shape': [int(x) for x in np.shape(i1)], 'field2': _cx(f2)}
+    return {'in': inp, 'observed_split': observed, 'reads': reads,
             'out_fields': [{'shape': list(f.data.shape), 'off': [int(f.offset[0]), int(f.offset[1])],
                             'pixelscale': [float(x) for x in np.broadcast_to(f.pixelscale, (2,))]} for f in o.data],
-            'out': _cx(o.field), 'wavelength': float(o.wavelength), 'focal_length': float(o.focal_length),
+            'out': _cx(f1), 'wavelength': float(o.wavelength), 'focal_length': float(o.focal_length),
             'pixelscale': [float(x) for x in o.pixelscale], 'ptype': str(o.ptype), 'shape': [int(x) for x in o.shape]}
 
 def _mask_box(stage):
@@ -384,7 +416,7 @@ def requests(c, io):
     # the call's arguments as written (None / int / pair): defaults and broadcasting are resolved by the model's generated code
     return [{'op': 'c02.propagate_dft', 'fields': [_bits_field(f) for f in inp['fields']],
              'dx': vlib.fl(inp['pixelscale']), 'du': vlib.fl(st['du']), 'wl': vlib.fbits(inp['wavelength']), 'z': vlib.fbits(inp['focal_length']),
-             'os': st['os'], 'wshape': inp['shape'], 'shape': st['shape'], 'prop_shape': st['prop_shape'],
+             'os': st['os'], 'wshape': inp['shape'], 'wtype': inp['ptype'], 'shape': st['shape'], 'prop_shape': st['prop_shape'],
              'mask_values': None if st['mask'] is None else {'shape': st['mask']['shape'], 'v': vlib.fl([float(b) for b in st['mask']['bits']])}}] + \
            ([{'op': 'c02.fix', 'v': vlib.fl(c['fix_probe'])}] if c.get('fix_probe') else [])
 
@@ -424,6 +456,7 @@ def compare(c, io, mo):
         return None
     if not m.get('ok'): return f"model refused ({m.get('err')}), the implementation answered"
     if list(m['out_shape']) != io['shape']: return f"output shape: implementation {io['shape']}, model {m['out_shape']} (shape/prop_shape defaults, broadcasting, oversample)"
+    if m.get('ptype') != io['ptype']: return f"output plane type: implementation {io['ptype']}, model {m.get('ptype')} (input {io['in']['ptype']})"
     # the split the model derives (np.fix of the field's shift) is the split the code used
     for k, (f, sp) in enumerate(zip(io['in']['fields'], m['splits'])):
         msub = vlib.unfl(sp[2:])
@@ -472,6 +505,10 @@ def fraunhofer(canvas, ar, ac, gr, gc):
 def oracle(c, io):
     st = c['stages'][-1]
     bad = (st['mask'] or {}).get('bad')
+    if io['in']['ptype'] not in ('pupil', 'image'):
+        # not a wavefront "that has passed planes from a pupil to an image plane (or back)": nothing may be answered, whatever the mask
+        if io.get('exc') == 'TypeError': return None
+        return f"a wavefront of plane type {io['in']['ptype']} must be refused with TypeError, got {io.get('exc', 'a result')}" + (f" ({io.get('msg')})" if 'exc' in io else '')
     if 'exc' in io:
         # a mask without support, or of the wrong shape, must be refused (ValueError; NumPy's IndexError for the empty support is accepted as a refusal)
         if bad == 'empty' and io['exc'] in ('ValueError', 'IndexError'): return None
@@ -547,6 +584,23 @@ def oracle(c, io):
         k = np.argwhere((d > _tol(io)) & win_any)[0]
         return (f'sample ({k[0]},{k[1]}) = {got[k[0], k[1]]:.6g} but the Fraunhofer sum with alpha=({ar:.4g},{ac:.4g}) gives '
                 f'{complex(want[k[0], k[1]]):.6g} (max error {float(d[win_any].max()):.3e})')
+    # every read of the result shows the same Fraunhofer sum: Wavefront.intensity (= |field|^2), Wavefront.field again, Wavefront.intensity again
+    rd = io.get('reads')
+    if rd is not None:
+        W = want.astype(complex); WI = np.abs(W) ** 2
+        tol = _tol(io); tol_i = tol * (1.0 + 2.0 * (float(np.max(np.abs(W))) if W.size else 0.0))
+        nf = len(io.get('out_fields', []))
+        if rd['int_shape'] != list(S): return f"Wavefront.intensity has shape {rd['int_shape']}, expected {S}"
+        for name, what, ref, t_ in (('int1', 'Wavefront.intensity (first read, after Wavefront.field)', WI, tol_i),
+                                    ('field2', 'Wavefront.field read again after Wavefront.intensity', W, tol),
+                                    ('int2', 'Wavefront.intensity read a second time', WI, tol_i)):
+            v = ((np.array(rd[name]['re']) + 1j * np.array(rd[name]['im'])).reshape(rd[name]['shape']) if name == 'field2' else np.array(rd[name]).reshape(S))
+            if v.shape != ref.shape: return f'{what}: shape {v.shape}, expected {ref.shape}'
+            e_ = np.abs(v - ref)
+            if e_.size and float(e_.max()) > t_:
+                k = np.argwhere(e_ > t_)[0]
+                return (f'{what} differs from the Fraunhofer sum of the input field at sample ({k[0]},{k[1]}): {v[k[0], k[1]]:.6g} vs {ref[k[0], k[1]]:.6g} '
+                        f'(max error {float(e_.max()):.3e}, {nf} output fields; the first Wavefront.field read was exact)')
     return None
 
 # ------------------------------------------------------------------------------------------ coverage
@@ -555,7 +609,7 @@ def signature(c):
     tl = 'none' if not st['tilt_px'] else ('sub' if all(abs(v) < 1 for t in st['tilt_px'] for v in t) else 'px')
     return (f"sc={c.get('scale')} ne={c.get('near_equal')} {len(c['stages'])} {c['pupil']['shape']} seg={c['pupil']['seg'] is not None} amp0={[i for i, a in enumerate(c['pupil']['amp']) if a == 0][:6]} "
             f"os={st['os']} shape={st['shape']} prop={st['prop_shape']} mask={_mask_box(st)} tilt={tl} "
-            f"wl={c.get('wl', WL):.3g} z={c.get('z', Z):g} fit={bool(c.get('fit_tilt'))} dx={'s' if c['scalar_dx'] else 'p'} du={'iso' if st['du'][0] == st['du'][1] else 'aniso'}")
+            f"wl={c.get('wl', WL):.3g} z={c.get('z', Z):g} fit={bool(c.get('fit_tilt'))} dx={'s' if c['scalar_dx'] else 'p'} du={'iso' if st['du'][0] == st['du'][1] else 'aniso'}" + (' untyped' if c.get('untyped') else ''))
 
 def nontrivial(c):
     st = c['stages'][-1]
@@ -569,6 +623,7 @@ def tags(c):
     t.append('pupil:' + ('1x1' if m == n == 1 else 'square-even' if m == n and m % 2 == 0 else 'square-odd' if m == n else 'non-square'))
     if c['pupil']['seg'] is not None: t.append('segmented')
     if st['mask'] is not None: t.append('mask')
+    if c.get('untyped'): t.append('untyped:' + ('bad-mask' if (st['mask'] or {}).get('bad') else 'mask' if st['mask'] is not None else 'no-mask'))
     if st['prop_shape'] is not None: t.append('prop_shape')
     if st['tilt_px']: t.append('tilt')
     if c.get('fit_tilt'): t.append('per-field-tilt')
